@@ -113,6 +113,17 @@ static void run_case(int k, const Case& cs)
     config.set_step_num_units((unsigned)std::stoi(T("calendar", 7)));
     config.set_season_start_end_month(std::stoi(T("season", 0)), std::stoi(T("season", 1)));
     config.random_seed = std::stoi(T("seed", 0));
+    // seedmode single | multi (one seed, ten streams) | named (name=value pairs)
+    std::string seedmode = get(cs, "seedmode").empty() ? "single" : T("seedmode", 0);
+    if (seedmode == "multi")
+        config.multiple_random_seeds = true;
+    if (seedmode == "named") {
+        std::string text;
+        const auto& kvs = get(cs, "seedmode");
+        for (size_t q = 1; q < kvs.size(); q++)
+            text += (q > 1 ? "," : "") + kvs[q];
+        config.read_seeds(text, ',', '=');
+    }
     config.model_type = T("mt", 0);
     config.latency_period_steps = std::stoi(T("mt", 1));
     config.generate_stochasticity = T("stoch", 0) == "1";
@@ -310,9 +321,41 @@ static void run_case(int k, const Case& cs)
 
     pops::verif::hooks().action = [&](int idx, const char* name) { snapshot(name, idx); };
     pops::verif::hooks().event =
-        [&](const char* tag, const void*, const std::vector<double>& p) {
+        [&](const char* tag, const void* gen, const std::vector<double>& p) {
             std::string s = tag;
             std::string t = tag;
+            if (model) {
+                auto& pr = model->random_number_generator();
+                const char* name = "provider";
+                bool single = (const void*)&pr.disperser_generation() == (const void*)&pr.soil();
+                if (gen == (const void*)&pr)
+                    name = "provider";
+                else if (single && gen == (const void*)&pr.soil())
+                    name = "general";
+                else if (gen == (const void*)&pr.disperser_generation())
+                    name = "disperser_generation";
+                else if (gen == (const void*)&pr.natural_dispersal())
+                    name = "natural_dispersal";
+                else if (gen == (const void*)&pr.anthropogenic_dispersal())
+                    name = "anthropogenic_dispersal";
+                else if (gen == (const void*)&pr.establishment())
+                    name = "establishment";
+                else if (gen == (const void*)&pr.weather())
+                    name = "weather";
+                else if (gen == (const void*)&pr.lethal_temperature())
+                    name = "lethal_temperature";
+                else if (gen == (const void*)&pr.movement())
+                    name = "movement";
+                else if (gen == (const void*)&pr.overpopulation())
+                    name = "overpopulation";
+                else if (gen == (const void*)&pr.survival_rate())
+                    name = "survival_rate";
+                else if (gen == (const void*)&pr.soil())
+                    name = "soil";
+                else
+                    name = "unknown";
+                s += std::string("@") + name;
+            }
             if (t == "draw") {
                 s += ":";
                 for (size_t i = 0; i < p.size(); i++)
